@@ -281,7 +281,7 @@ fn run_shard(
             case: cur["case"].clone(),
         };
         let text = serde_json::to_string_pretty(&rf).unwrap();
-        let dir = engine::verif_dir().join("replays");
+        let dir = engine::replay_dir();
         let _ = fs::create_dir_all(&dir);
         let path = dir.join(format!(
             "{}-{}-died-{:016x}.json",
@@ -366,9 +366,9 @@ fn parent(prop_id: &str, tier: &str) -> i32 {
     if profiles.is_empty() {
         profiles.push(bins.keys().next().map(|s| s.as_str()).unwrap());
     }
-    let out_dir = engine::verif_dir()
-        .join(".build")
-        .join("run")
+    let out_dir = std::env::var_os("FV_RUN_DIR")
+        .map(PathBuf::from)
+        .unwrap_or_else(|| engine::verif_dir().join(".build").join("run"))
         .join(format!("{}-{}", prop.id, tier.name()));
     let _ = fs::remove_dir_all(&out_dir);
     fs::create_dir_all(&out_dir).expect("create run dir");
@@ -489,7 +489,7 @@ fn parent(prop_id: &str, tier: &str) -> i32 {
         "wall_s": wall,
         "violations": printed.len(),
     });
-    let ev_dir = engine::verif_dir().join("evidence");
+    let ev_dir = engine::evidence_dir();
     let _ = fs::create_dir_all(&ev_dir);
     let ev_path = ev_dir.join(format!("{}.json", prop.id));
     fs::write(&ev_path, serde_json::to_string_pretty(&evidence).unwrap()).expect("write evidence");
